@@ -1499,7 +1499,15 @@ impl Expr {
                     | ScalarFunction::IsInfinite
                     | ScalarFunction::LuhnCheck => Ok(ArrowDataType::Boolean),
                     // Conditional functions - find first non-null type
-                    ScalarFunction::Coalesce | ScalarFunction::Greatest | ScalarFunction::Least => {
+                    ScalarFunction::Coalesce => {
+                        // the common type of the arguments, as the executor unifies them
+                        let mut ty = ArrowDataType::Null;
+                        for arg in args {
+                            ty = case_common_type(&ty, &arg.data_type(schema)?);
+                        }
+                        Ok(ty)
+                    }
+                    ScalarFunction::Greatest | ScalarFunction::Least => {
                         // Try to find the first non-null type among arguments
                         for arg in args {
                             let arg_type = arg.data_type(schema)?;
